@@ -50,6 +50,7 @@ type Node struct {
 	facts           *facts
 	preBlockOK      bool
 	lastBlockObj    *Block
+	everHad         map[Hash]bool // transactions this node ever possessed (pool or supplied)
 	crashInProcess  int
 	fatal           bool
 }
@@ -60,6 +61,11 @@ func (n *Node) String() string {
 	}
 	return fmt.Sprintf("n%d(id%d)", n.id, n.ident)
 }
+
+// judged: per-instance message-discipline oracles skip split-brain instances,
+// whose identity equivocates by construction (each brain receives its
+// sibling's payloads under its own validator index).
+func (n *Node) judged() bool { return n.kind != FSplit }
 
 func (n *Node) tip() *Block { return n.ledger[len(n.ledger)-1] }
 
@@ -315,7 +321,7 @@ func (st *Step) describe() string {
 	case OpTimeout:
 		return fmt.Sprintf("OnTimeout h=%d v=%d", st.TH, st.TV)
 	case OpTx:
-		return fmt.Sprintf("OnTransaction tx%d", st.Tx.ID)
+		return fmt.Sprintf("OnTransaction tx%d(%s)", st.Tx.ID, st.Tx.Hash())
 	case OpStart, OpReset:
 		return fmt.Sprintf("%s ts=%d", opNames[st.Op], st.Arg)
 	}
@@ -353,8 +359,8 @@ func (o *Out) describe() string {
 		if o.Hdr != nil {
 			return fmt.Sprintf("%s idx=%d ts=%d ntx=%d #%s ok=%v", outNames[o.Kind], o.Hdr.Idx, o.Hdr.TS, len(o.Hdr.TxHashes), o.Hash, o.OK)
 		}
-	case ORequestTx, OGetVerified:
-		return fmt.Sprintf("%s n=%d", outNames[o.Kind], len(o.Hashes))
+	case ORequestTx, OGetVerified, ONewPrepReq:
+		return fmt.Sprintf("%s %v", outNames[o.Kind], o.Hashes)
 	}
 	return outNames[o.Kind]
 }
@@ -467,6 +473,7 @@ func (n *Node) options() []func(*dbft.Config[Hash]) {
 		dbft.WithVerifyBlock[Hash](func(b dbft.Block[Hash]) bool {
 			bb := b.(*Block)
 			ok := n.verifyTxs(bb.txs)
+			n.facts.verdict[contentKey(bb.Idx, bb.Prev, bb.TS, bb.Nonce, bb.TxHashes)] = ok
 			n.out(Out{Kind: OVerifyBlock, Hdr: &bb.Header, Hash: bb.Hash(), OK: ok})
 			return ok
 		}),
@@ -519,6 +526,7 @@ func (n *Node) options() []func(*dbft.Config[Hash]) {
 			dbft.WithVerifyPreBlock[Hash](func(b dbft.PreBlock[Hash]) bool {
 				bb := b.(*PreBlock)
 				ok := n.verifyTxs(bb.txs)
+				n.facts.verdict[contentKey(bb.Idx, bb.Prev, bb.TS, bb.Nonce, bb.TxHashes)] = ok
 				n.out(Out{Kind: OVerifyPreBlock, Hdr: &bb.Header, Hash: bb.preHash(), OK: ok})
 				return ok
 			}),
@@ -551,8 +559,8 @@ func (n *Node) cbGetVerified() []dbft.Transaction[Hash] {
 	var hs []Hash
 	if max > 0 {
 		for _, tx := range sortedHashes(n.pool) {
-			if tx.Invalid {
-				continue // the verified pool never holds invalid transactions
+			if tx.Invalid && !n.s.sc.PoolHoldsInvalid {
+				continue // the verified pool normally holds no invalid transactions
 			}
 			out = append(out, tx)
 			hs = append(hs, tx.Hash())
@@ -579,7 +587,7 @@ func (n *Node) cbRequestTx(hs ...Hash) {
 			s.fault("requested_tx_never_supplied")
 			continue
 		}
-		d := s.sc.LatBase + s.tape.Range(SApp, 0, 16)*s.sc.LatBase/2
+		d := s.sc.LatBase*(1+4*s.sc.SupplySlow) + s.tape.Range(SApp, 0, 16)*s.sc.LatBase/2
 		s.after(d, &Event{Kind: EvTxSupply, Node: n.id, Inc: n.inc, Tx: tx})
 	}
 }
@@ -734,6 +742,7 @@ func (n *Node) txArrive(tx *Tx) {
 		return
 	}
 	n.pool[tx.Hash()] = tx
+	n.everHad[tx.Hash()] = true
 	if n.subscribed && n.d != nil {
 		n.subscribed = false
 		n.call(&Step{Op: OpNewTx}, func() { n.d.OnNewTransaction() })
